@@ -76,9 +76,10 @@ const (
 	fBlockVictimKey = "copied-block-victim-key" // victim's identity block, victim's key in `key`: signature cannot verify
 	fBlockOwnKey    = "copied-block-own-key"    // victim's identity block, attacker's key in `key`: signature verifies against `key`
 	fIDKeyBadSigs   = "copied-id-key-bad-sigs"  // victim's id and public key, attacker's identity signatures (and entry signature)
+	fIDSigsOwnKey   = "copied-id-sigs-own-key"  // victim's id and identity signatures, attacker's public key (which signs the entry)
 )
 
-var forgeKinds = []string{fNonWriter, fCopiedID, fBlockVictimKey, fBlockOwnKey, fIDKeyBadSigs}
+var forgeKinds = []string{fNonWriter, fCopiedID, fBlockVictimKey, fBlockOwnKey, fIDKeyBadSigs, fIDSigsOwnKey}
 
 // Forge builds an entry for log logID authored (really) by the attacker.
 // victim is the authorised identity that is impersonated (unused for
@@ -93,6 +94,9 @@ func (a *Adv) Forge(kind, logID string, payload []byte, next, refs []cid.Cid, cl
 	case fIDKeyBadSigs:
 		claimed.ID = victim.ID
 		claimed.PublicKey = victim.PublicKey
+	case fIDSigsOwnKey:
+		claimed.ID = victim.ID
+		claimed.Signatures = victim.Signatures
 	case fBlockVictimKey, fBlockOwnKey:
 		claimed.ID = victim.ID
 		claimed.PublicKey = victim.PublicKey
